@@ -190,6 +190,11 @@ def add_missing_imports(source: str) -> str:
         str: Source code with added imports
     """
     undefined_variables = tracing.get_undefined_variables(source)
+    if undefined_variables and re.search(r"^\s*from\s.*\simport\s*\(?\s*\*", source, re.MULTILINE):
+        # Names that a starred import provides are defined, whatever they look like
+        undefined_variables = {
+            name for name in undefined_variables if not tracing.trace_origin(name, source)
+        }
     if undefined_variables:
         return _fix_undefined_variables(source, undefined_variables)
 
